@@ -1,6 +1,7 @@
 package main
 
 import (
+	"os"
 	"bytes"
 	"encoding/json"
 	"flag"
@@ -26,6 +27,7 @@ type treeNode struct {
 	Hidden bool      `json:"hidden"`
 	Policy string    `json:"policy"` // "" = inherited; continue | exit | panic = set in the command's initialiser
 	IntMulti bool    `json:"intmulti"` // the Int option is declared multi-valued (IntsOpt)
+	IntEnv   string  `json:"intenv"`   // the Int option is backed by an environment variable holding this text ("" = no variable)
 	Late   bool      `json:"late"`   // (children of the application only) declared after the earlier runs, before the observed one
 }
 
@@ -163,7 +165,11 @@ func runTree(c treeCase) (r treeResult) {
 			logs[path]["O:"+optKey(o.Names)] = l
 			cmd.Var(cli.VarOpt{Name: o.Names, Value: &rec{flag: o.Flag, log: l}})
 		}
-		if n.IntOpt != "" && !n.Bare && n.IntMulti {
+		if n.IntOpt != "" && !n.Bare && n.IntMulti && n.IntEnv != "" {
+			os.Setenv("VERIF_TREE_N", n.IntEnv)
+			cmd.Ints(cli.IntsOpt{Name: n.IntOpt, EnvVar: "VERIF_TREE_N"})
+			os.Unsetenv("VERIF_TREE_N")
+		} else if n.IntOpt != "" && !n.Bare && n.IntMulti {
 			cmd.Ints(cli.IntsOpt{Name: n.IntOpt})
 		} else if n.IntOpt != "" && !n.Bare {
 			ints[path] = cmd.Int(cli.IntOpt{Name: n.IntOpt, Value: -1})
